@@ -77,7 +77,10 @@ def c_rational(k, n, d):
 EPOCH = datetime.datetime(1970, 1, 1)
 
 
-def _poison(how):
+_LIBC = []
+
+
+def _poison(how, k=0, n=1, d=1):
     import time
     import digital_rf
     try:
@@ -85,6 +88,20 @@ def _poison(how):
             digital_rf.get_unix_time(10 ** 17, 1, 1)
         elif how == "gmtime":
             time.gmtime(10 ** 17)
+        elif how == "libc-calendar":
+            # the same index converted just before, then the application itself uses the C library's calendar functions
+            # (their result buffer is shared by the whole process) for an unrelated time
+            digital_rf.get_unix_time(k, n, d)
+            if not _LIBC:
+                _LIBC.append(ctypes.CDLL(None))
+                _LIBC[0].gmtime.restype = ctypes.c_void_p
+                _LIBC[0].localtime.restype = ctypes.c_void_p
+            t = ctypes.c_long(946080000 + (k % 1000) * 86400 * 37)
+            _LIBC[0].gmtime(ctypes.byref(t))
+            _LIBC[0].localtime(ctypes.byref(t))
+        elif isinstance(how, list):
+            # a conversion at a RELATED rate just before (same numerator or same denominator, other partner)
+            digital_rf.get_unix_time(how[0], how[1], how[2])
     except BaseException:
         pass
 
@@ -105,7 +122,7 @@ def check_tuple(k, n, d, s, ps, res, python_api=True, before=None):
 
         try:
             if before:
-                _poison(before)
+                _poison(before, k, n, d)
             pdt, pps = digital_rf.get_unix_time(k, n, d)
             if pdt != dt.replace(microsecond=eps // 10 ** 6) or pps != eps:
                 res.fail("python-get_unix_time", "k=%d n=%d d=%d got (%s,%d) expected (%s,%d)" % (k, n, d, pdt, pps, dt, eps))
@@ -198,7 +215,18 @@ def _cases(draw):
         ps = draw(st.integers(0, 999)) * 10 ** 9
     # what this thread did just before the conversion: nothing / a conversion of an index whose time no calendar can express
     # (it fails) / a failing calendar call of the C library through Python itself.  A pure function owes the same result
-    return {"k": k, "n": n, "d": d, "s": s, "ps": ps, "before": draw(st.sampled_from([None, None, None, "convert", "gmtime"]))}
+    before = draw(st.sampled_from([None, None, None, "convert", "gmtime", "libc-calendar", "rate", "rate"]))
+    if before == "rate":
+        # (n, d') or (n', d) with the partner a multiple / a divisor-sharing neighbour, kept inside the accepted domain
+        m_ = draw(st.sampled_from([2, 3, 4, 6, 7, 10, 64, 1001]))
+        if draw(st.booleans()):
+            n2, d2 = n, max(1, min(10 ** 9, d * m_ if draw(st.booleans()) else max(1, d // m_)))
+        else:
+            n2, d2 = max(1, min(2 ** 32 - 1, n * m_ if draw(st.booleans()) else max(1, n // m_))), d
+        if n2 * d2 >= 1 << 64:
+            n2, d2 = n, d
+        before = [min(k, max(0, min((1 << 63) - 1, YEAR9999 * n2 // d2) - 1)), n2, d2]
+    return {"k": k, "n": n, "d": d, "s": s, "ps": ps, "before": before}
 
 
 def strategy(tier):
@@ -380,7 +408,7 @@ def run_case(case):
     k, n, d = case["k"], case["n"], case["d"]
     check_tuple(k, n, d, case["s"], case["ps"], res, before=case.get("before"))
     if case.get("before"):
-        res.cls("after-a-failed-conversion:" + case["before"])
+        res.cls("preceded-by:" + (case["before"] if isinstance(case["before"], str) else "conversion-at-related-rate"))
     res.nontrivial = nontrivial(k, n, d)
     if k >= 1 << 40:
         res.cls("bigindex")
